@@ -889,8 +889,9 @@ static void skip_line () {
 
   while (((c = *yyp++) != '\n') && (c != LEX_EOF));
 
-  /* Next read of this '\n' will do refill_buffer() if neccesary */
-  if (c == '\n')
+  /* Next read of this '\n' will do refill_buffer() if neccesary;
+   * the end-of-file mark of a last line without '\n' must be seen again too */
+  if (c == '\n' || c == LEX_EOF)
     yyp--;
   outptr = yyp;
 }
